@@ -129,6 +129,13 @@ def declare(e):
         if v.ty.kind == "str":
             f = eng.uf("ghost_path_of_str", [z3.StringSort()], reg.sort(TAbs("Path")))
             return [(s, Val(TAbs("Path"), f(v.t)))]
+        if v.ty.kind == "opt":
+            bad, ok = eng.branch(s, eng.is_none(v), "Path(None)")
+            if bad is not None:
+                eng.raise_(bad, TypeError, where=node)
+            if ok is None:
+                return []
+            return m_path(eng, ok, [eng.unwrap(v)], kw, node)
         raise Unsupported(f"Path({v.ty})")
     e.func_models[pathlib.Path] = m_path
     e.func_models[pathlib.PurePath] = m_path
@@ -528,3 +535,75 @@ def declare_config(e):
     def exc_to_pyexc(eng, v, ty):
         return eng.fresh(TAbs("PyExc"), "exc_value")
     e.coerce_hooks[("Exc", "PyExc")] = exc_to_pyexc
+
+
+def declare_effects(e):
+    """Ghost file-system effects (DESIGN 3.5) as monotone sets: fs_written (created / truncated / written paths),
+    fs_dirs (mkdir), fs_removed (unlink), and fs_written_at_unlink (snapshot of fs_written taken by the last unlink, which
+    is what 'removed only after written' needs)."""
+    import builtins
+    import os as _os
+    import pathlib
+    import shutil
+    reg = e.reg
+    P = reg.sort(TAbs("Path"))
+    PS = TSet(TAbs("Path"))
+    for g in ("fs_written", "fs_dirs", "fs_removed", "fs_written_at_unlink"):
+        e.ghost_defaults[g] = (lambda name: (lambda eng: Val(PS, z3.Const(name + "0", reg.sort(PS)))))(g)
+
+    def add(eng, s, gname, path):
+        cur = eng.lookup(gname, s)
+        s.ghost[gname] = eng.set_add(cur, path)
+
+    def m_effect(gname):
+        def model(eng, s, recv, name, args, kw, node):
+            s = s.copy()
+            add(eng, s, gname, recv)
+            if gname == "fs_removed":
+                s.ghost["fs_written_at_unlink"] = eng.lookup("fs_written", s)
+            return [(s, Val(NONE, None))]
+        return model
+    e.method_models[("Path", "touch")] = m_effect("fs_written")
+    e.method_models[("Path", "mkdir")] = m_effect("fs_dirs")
+    e.method_models[("Path", "unlink")] = m_effect("fs_removed")
+    e.method_models[("Path", "write_text")] = m_effect("fs_written")
+
+    def m_strerror(eng, s, args, kw, node):
+        return [(s, eng.fresh(STR, "strerror"))]
+    e.func_models[_os.strerror] = m_strerror
+
+    def m_copyfile(eng, s, args, kw, node):
+        s = s.copy()
+        add(eng, s, "fs_written", eng.coerce(args[1], TAbs("Path")))
+        return [(s, Val(NONE, None))]
+    e.func_models[shutil.copyfile] = m_copyfile
+
+    # open(): a mode with w/a/x/+ truncates or creates the file at open time
+    reg.declare("abs", "OutFile")
+    prev_open = e.method_models.get(("Path", "open"))
+
+    def m_path_open(eng, s, recv, name, args, kw, node):
+        mode = args[0] if args else kw.get("mode")
+        mode_s = "r" if mode is None else (mode.t if mode.is_py else mode.t.as_string())
+        if any(ch in mode_s for ch in "wax+"):
+            s = s.copy()
+            add(eng, s, "fs_written", recv)
+            return [(s, eng.fresh(TAbs("OutFile"), "out"))]
+        return prev_open(eng, s, recv, name, [], {}, node)
+    e.method_models[("Path", "open")] = m_path_open
+
+    def m_builtin_open(eng, s, args, kw, node):
+        path = eng.coerce(args[0], TAbs("Path"))
+        mode = args[1] if len(args) > 1 else kw.get("mode")
+        return m_path_open(eng, s, path, "open", [mode] if mode is not None else [], {}, node)
+    e.func_models[builtins.open] = m_builtin_open
+
+    def with_out(eng, s, cm, var, body):
+        if var is not None:
+            eng.assign_target(s, var, cm)
+        return eng.exec_block(body, s)
+    e.with_models["OutFile"] = with_out
+
+    def m_outfile(eng, s, recv, name, args, kw, node):
+        return [(s, Val(NONE, None))]      # fp.write(...): content is not modelled, the effect is recorded at open
+    e.method_models[("OutFile", "*")] = m_outfile
